@@ -876,7 +876,15 @@ func c20Post(tier string, seed int64, m *core.Part) {
 	cmd := exec.CommandContext(ctx, exe, "racepass", tier)
 	cmd.Env = append(os.Environ(), "GORACE=halt_on_error=0 exitcode=0 log_path="+logBase)
 	out, err := cmd.CombinedOutput()
-	if ctx.Err() != nil || strings.Contains(string(out), "racepass HANG") {
+	if ctx.Err() != nil && !strings.Contains(string(out), "racepass HANG") {
+		// the pass as a whole ran out of its time budget (every pair has its own 3-minute hang
+		// detector, which did not fire): a loaded machine, not evidence of anything
+		m.Capped = true
+		m.CapNote = fmt.Sprintf("free-running pass stopped after %v (time budget of the pass); pairs completed: %d. %s", limit, strings.Count(string(out), "racepass pair "), m.CapNote)
+		m.Counters["race_pass_pairs"] = int64(strings.Count(string(out), "racepass pair "))
+		return
+	}
+	if strings.Contains(string(out), "racepass HANG") {
 		// the bodies have no loops that wait: not finishing means goroutines block each other
 		dir := filepath.Join(core.VerifDir, "replays", "C20")
 		os.MkdirAll(dir, 0o755)
